@@ -10,6 +10,7 @@ CONSTANTS
   MaxInsts = 1
   InstRes = {"value", "void", "none"}
   TermKinds = {"ret", "br", "invoke", "callbr", "catchswitch"}
+  Forms = {"short"}
   MaxSrc = 4
   EmitFile = "vectors.ndjson"
 INVARIANTS FnWalkIsLLVM FnIdempotent ModBuiltCorrect ModParsedTotal ModParsedCorrect ModIdempotent ModPrintedAgree
